@@ -320,6 +320,19 @@ func (d Decimal) Mul(input Decimal) Decimal {
 	return Decimal(decimal.Decimal(d).Mul(decimal.Decimal(input)))
 }
 
+// Product returns d * input. The exponent of a product is the sum of the
+// exponents: when it leaves the range a Decimal may have (maxDecimalExponent,
+// the bound on decimals read from text), the result is ErrIntOverflow - such a
+// value would make every later operation compute a power of ten of that size,
+// and beyond 32 bits the multiplication itself panics.
+func (d Decimal) Product(input Decimal) (Decimal, error) {
+	exponent := int64(decimal.Decimal(d).Exponent()) + int64(decimal.Decimal(input).Exponent())
+	if exponent > maxDecimalExponent || exponent < -maxDecimalExponent {
+		return Decimal{}, fmt.Errorf("%w: decimal exponent %d", ErrIntOverflow, exponent)
+	}
+	return d.Mul(input), nil
+}
+
 // Div divides d by input.
 func (d Decimal) Div(input Decimal) Decimal {
 	return Decimal(decimal.Decimal(d).Div(decimal.Decimal(input)))
